@@ -191,12 +191,9 @@ func (s *mshadow) applyM(o MOp) (panics bool, payload []int64, ok bool, sk mskip
 			if !(math.Abs(a.v[k]-b.v[k]) < eps) {
 				r = 0
 			}
-			if o.MA.S && a.v[k] == 0 && b.v[k] != 0 && math.Abs(b.v[k]) < eps {
-				sk.payload = true // C03-MEQ-ABSENT
-			}
 		}
 		if o.X <= 0 {
-			sk.payload = true // C03-EQEPS0
+			sk.payload = true // epsilon <= 0 is outside the property's statement (see known())
 		}
 		payload = []int64{r}
 	case "MdotM":
@@ -212,13 +209,6 @@ func (s *mshadow) applyM(o MOp) (panics bool, payload []int64, ok bool, sk mskip
 		if len(R.v) == 0 || len(B.v) == 0 || (o.MR.S && len(A.v) == 0) {
 			panics = true // storageLocation() of an empty matrix
 			return
-		}
-		if o.MR.S {
-			for _, x := range R.v {
-				if x != 0 {
-					sk.recv = true // C03-MDOTM-STALE
-				}
-			}
 		}
 		res := make([]float64, len(R.v))
 		for i := 0; i < R.n; i++ {
